@@ -245,7 +245,7 @@ Lemma block_step_ok m b txs e es :
     block_step m b txs (e :: es) =
       (0, MS (blk_pool (m_pool m) txs) (m_delivered m) (m_live m) (m_seen m) (m_vouched m) cf' (m_unsafe m)
              (m_safe m) (m_local m) (m_clock m) (m_insync m) (m_chain m ++ [b]) (m_vnow m) (m_vpersist m)
-             (m_proofs m)) /\
+             (m_proofs m) (m_body m)) /\
     forall x, x ∈ cf' <-> x ∈ m_conflicted m \/ x ∈ blk_victims (m_pool m) txs.
 Proof.
   intros Hh Hvic Ht. unfold block_step. rewrite Hh. cbn [negb].
@@ -260,4 +260,60 @@ Proof.
     apply negb_false_iff. specialize (Ht t body true Hin eq_refl).
     destruct (mem t (m_delivered m) && negb (limbo m t)); exact Ht. }
   rewrite Hb. exists cf'. split; [reflexivity|exact H2].
+Qed.
+
+Lemma add_tx_facts s now t body tr :
+  let r := add_transaction s now t body tr in
+  (snd (snd r) = true -> snd (fst (snd r)) = tr) /\
+  forall t', is_trusted (fst r) t' = if decide (t' = t) then is_trusted s t || tr else is_trusted s t'.
+Proof.
+  cbv zeta. unfold add_transaction, is_trusted.
+  destruct (txs s !! t) as [m0|] eqn:Em.
+  - assert (Hm1 : mtrusted (if tr && negb (mtrusted m0) then MTx (mtime m0) (outpoints m0) true else m0)
+                  = mtrusted m0 || tr).
+    { destruct (mtrusted m0) eqn:E; destruct tr; cbn; rewrite ?E; reflexivity. }
+    destruct (negb (zlen (outpoints m0) =? 0)) eqn:Eo.
+    + cbn [fst snd txs]. split; [discriminate|]. intros t'.
+      destruct (decide (t' = t)) as [->|Hne];
+        [rewrite lookup_insert; exact Hm1 | rewrite lookup_insert_ne by congruence; reflexivity].
+    + destruct (add_inputs (inputs s) [] t body) as [ins c]. cbn [fst snd txs].
+      split; [reflexivity|]. intros t'.
+      destruct (decide (t' = t)) as [->|Hne];
+        [rewrite lookup_insert; exact Hm1 | rewrite lookup_insert_ne by congruence; reflexivity].
+  - destruct (add_inputs (inputs s) [] t body) as [ins c]. cbn [fst snd txs].
+    split; [reflexivity|]. intros t'.
+    destruct (decide (t' = t)) as [->|Hne];
+      [rewrite lookup_insert; reflexivity | rewrite lookup_insert_ne by congruence; reflexivity].
+Qed.
+
+(* ---------------------------------------------------------------------------------------- *)
+(* load puts the bodies of the tracked transactions back into the mempool *)
+Definition reload_entry (f : Z -> option (list Z)) (t : Z) : option (Z * list Z) :=
+  match f t with Some b => if zlen b =? 0 then None else Some (t, b) | None => None end.
+
+Lemma reload_spec (f : Z -> option (list Z)) now : forall keys s p,
+  NoDup keys -> R s p -> (forall t, t ∈ keys -> held p t = false) -> (forall x, is_trusted s x = false) ->
+  let s' := fold_left (fun m t => match f t with Some b => fst (add_transaction m now t b false) | None => m end) keys s in
+  R s' (p ++ omap (reload_entry f) keys) /\ (forall x, is_trusted s' x = false).
+Proof.
+  induction keys as [|t keys IH]; intros s p Hnd HR Hh Htr; cbv zeta; cbn [fold_left].
+  - cbn. rewrite app_nil_r. auto.
+  - apply NoDup_cons in Hnd. destruct Hnd as [Hni Hnd].
+    change (omap (reload_entry f) (t :: keys)) with
+      (match reload_entry f t with Some y => y :: omap (reload_entry f) keys | None => omap (reload_entry f) keys end).
+    unfold reload_entry at 1.
+    destruct (f t) as [b|] eqn:Ef.
+    + pose proof (R_add s p now t b false HR) as Hadd. cbv zeta in Hadd. destruct Hadd as [HR1 _].
+      unfold ref_step in HR1. rewrite (Hh t) in HR1 by left. cbn [fst] in HR1.
+      assert (Htr1 : forall x, is_trusted (fst (add_transaction s now t b false)) x = false).
+      { intros x. pose proof (add_tx_facts s now t b false) as Hx. cbv zeta in Hx. rewrite (proj2 Hx x).
+        destruct (decide (x = t)); rewrite Htr; reflexivity. }
+      destruct (zlen b =? 0) eqn:Ez.
+      * apply (IH _ p Hnd HR1); [|exact Htr1]. intros t' Ht'. apply Hh. right. exact Ht'.
+      * change ((t, b) :: omap (reload_entry f) keys) with ([(t, b)] ++ omap (reload_entry f) keys).
+        rewrite app_assoc. apply (IH _ (p ++ [(t, b)]) Hnd HR1); [|exact Htr1].
+        intros t' Ht'. apply held_false. intros b' Hb'. apply elem_of_app in Hb'. destruct Hb' as [Hb'|Hb'].
+        -- pose proof (Hh t' (elem_of_list_further _ _ _ Ht')) as Hf. eapply held_false in Hf. apply Hf, Hb'.
+        -- apply elem_of_list_singleton in Hb'. inversion Hb'. subst. contradiction.
+    + apply (IH s p Hnd HR); [|exact Htr]. intros t' Ht'. apply Hh. right. exact Ht'.
 Qed.
